@@ -117,6 +117,21 @@ def gen_one(rng, profile, builder):
              for r in sets1]
     for v in sys["vars"]:
         v.pop("divisible", None)
+    if rng.random() < 0.5:
+        # unique-role stream: the head's value of an input variable, read per household and projected back
+        cands = [r for r in sets1 if sys["vars"][r[1]]["ent"] == "person" and sys["vars"][r[1]]["unit"] != "eternity"
+                 and not sys["vars"][r[1]].get("neutral")]
+        if cands:
+            r = rng.choice(cands)
+            j, src = r[1], sys["vars"][r[1]]
+            ty = "float" if src["type"] == "float" else "int"
+            k = len(sys["vars"])
+            sys["vars"].append({"ent": "group", "type": ty, "unit": src["unit"], "end": None, "default": 0, "neutral": False,
+                                "formulas": [[[1, 1, 1], ["agg", "from_person", 2, ["dep", j, "same", "plain"]]]]})
+            sys["vars"].append({"ent": "person", "type": ty, "unit": src["unit"], "end": None, "default": 0, "neutral": False,
+                                "formulas": [[[1, 1, 1], ["bin", "sub", ["project", None, ["dep", k, "same", "plain"]],
+                                                          ["dep", j, "same", "plain"]]]]})
+            rest = rest + [["calc", k + rng.randrange(2), r[2]], ["calc", k, r[2]]]
     n1, n2 = len(pop1["ids"]), len(pop2["ids"])
     pmode, f1, f2 = gen_interleaving(rng, n1, n2)
     gmode, g1, g2 = gen_interleaving(rng, pop1["count"], pop2["count"])
